@@ -22,6 +22,8 @@ class State:
         self.selfmap = {}  # fid -> ast expr for that frame's `self` (in root terms) or None
         self.tainted = set()   # heap keys mutated in place (append/extend/...) after assignment
         self.versioned = {}    # heap key -> version counter: the cell is kept opaque, each write bumps the version
+        self.alias = {}        # (fid, local name) -> attribute path AST the local was bound to (x = self._header): item reads and
+                               # writes through the local go to the cells of that attribute
 
     def lookup_local(self, fr, name):
         f = fr
@@ -46,6 +48,8 @@ class State:
                         return clone(sm)
                     return n
                 v = st.lookup_local(fr, n.id)
+                if (fr.fid, n.id) in st.alias and isinstance(getattr(n, '_parent', None), ast.Subscript) and n._parent.value is n:
+                    return self.visit(clone(st.alias[(fr.fid, n.id)]))
                 if v is not None:
                     return clone(v)
                 return n
@@ -117,6 +121,7 @@ def replay(path, on_event=None, heap=True, versioned=()):
     st = State()
     st.heap_subst = heap
     st.versioned = {k: 0 for k in versioned}
+    prev_assign = None
     for i, ev in enumerate(path.ev):
         if on_event is not None:
             on_event(i, ev, st)
@@ -165,6 +170,15 @@ def replay(path, on_event=None, heap=True, versioned=()):
                 val = None
             else:
                 val = st.expr(ret, rfr)
+            # a = b = value: the value is evaluated once, before the first target is bound
+            if prev_assign is not None and prev_assign[0] is ev.node and prev_assign[2] == i - 1:
+                val = prev_assign[1]
+            prev_assign = (ev.node, val, i)
+            if isinstance(tgt, ast.Name):
+                st.alias.pop((ev.frame.fid, tgt.id), None)
+                if isinstance(ret, ast.Attribute) and rfr is ev.frame and _key(ret) is not None and _key(ret).startswith('self.') \
+                        and _key(ret) not in st.versioned:
+                    st.alias[(ev.frame.fid, tgt.id)] = ret
             _bind(st, tgt, val, ev.frame)
         elif k == 'aug':
             s = ev.node
@@ -197,6 +211,12 @@ def _bind(st, tgt, val, fr):
         key = st.key(tgt, fr)
         if key is not None and key in st.versioned:
             st.versioned[key] += 1
+            if val is not None:
+                d = ast.dump(val)
+                newname = ast.Name(id='%s_v%d' % (tgt.attr.lstrip('_'), st.versioned[key]), ctx=ast.Load())
+                for lk, lv in list(st.loc.items()):
+                    if isinstance(lv, ast.AST) and ast.dump(lv) == d:
+                        st.loc[lk] = newname
             return
         if key is not None:
             for k2 in [k2 for k2 in st.heap if k2.startswith(key + '[')]:
@@ -205,6 +225,11 @@ def _bind(st, tgt, val, fr):
                 st.heap.pop(key, None)
             else:
                 st.heap[key] = val
+                if key.startswith('self.') and not isinstance(val, (ast.Constant, ast.Name)):
+                    d = ast.dump(val)
+                    for lk, lv in list(st.loc.items()):
+                        if lk[0] == fr.fid and isinstance(lv, ast.AST) and ast.dump(lv) == d:
+                            st.loc[lk] = clone(tgt)
                 if isinstance(val, ast.Dict):
                     for dk, dv in zip(val.keys, val.values):
                         if isinstance(dk, ast.Constant):
@@ -220,7 +245,10 @@ def _bind(st, tgt, val, fr):
             else:
                 _bind(st, t, None, fr)
     elif isinstance(tgt, ast.Subscript):
-        key = st.key(tgt.value, fr) if isinstance(tgt.value, ast.Attribute) else None
+        base = tgt.value
+        if isinstance(base, ast.Name) and (fr.fid, base.id) in st.alias:
+            base = st.alias[(fr.fid, base.id)]
+        key = st.key(base, fr) if isinstance(base, ast.Attribute) else None
         if key is not None:
             st.tainted.add(key)
             if isinstance(tgt.slice, ast.Constant):
